@@ -11,7 +11,7 @@ def _trivial(impl):
 
 
 CONFIG = {
-    "modules": ["GoPlugin.Props.C17", "GoPlugin.Instance.C17"],
+    "modules": ["GoPlugin.Props.C17", "GoPlugin.Props.Hygiene", "GoPlugin.Instance.C17"],
     "scenario": "C17",
     "signature": _sig,
     "trivial": _trivial,
